@@ -609,8 +609,9 @@ class FermionicArray(AbelianArray):
             new.phase_global(inplace=True)
 
         if phase_dual:
+            # n.b. as in `conj`: the legs that *were* dual, i.e. are not now
             axs_conj = tuple(
-                ax for ax, ix in enumerate(new_indices) if ix.dual
+                ax for ax, ix in enumerate(new_indices) if not ix.dual
             )
             new.phase_flip(*axs_conj, inplace=True)
 
